@@ -270,7 +270,7 @@ var strictUlp = float64(vlib.EnvInt("C17_STRICT_ULP", 8)) // the env knob is for
 func lawPair(law string, sLo, sHi float64, eLo, eHi *big.Float, weight float64, detail string) (strict bool, f *vlib.Failure) {
 	u := ulp(weight)
 	if eLo.Cmp(eHi) > 0 {
-		return false, vlib.Failf("harness-law-order", "%s: exact values are not ordered as the law says (%v > %v) %s", law, eLo, eHi, detail)
+		return false, vlib.Failf("law-inverted@"+law, "%s law: the formula the explanation states is itself not monotone: %v (should be lower) > %v; %s", law, f64(eLo), f64(eHi), detail)
 	}
 	if sLo-sHi > tolUlp*u {
 		return false, vlib.Failf("law-inverted@"+law, "%s law inverted: %v (should be lower) > %v by %.3g ulp of the weight %v; %s", law, sLo, sHi, (sLo-sHi)/u, weight, detail)
@@ -321,11 +321,28 @@ func propDirect1(c DirectCase, st *directStats) *vlib.Failure {
 	if d := math.Abs(ex.Value - s); d > 1e-12*math.Abs(s) && d > tolUlp*u {
 		return vlib.Failf("explain-value-vs-score", "Explain(...).Value = %v, Score(...) = %v; %s", ex.Value, s, detail)
 	}
-	// the score is what the messages say: boost * idf * tf with the true leaves
+	// the score is what the messages say: boost * idf * tf, the tf formula of the tf node's own
+	// message applied to the true leaves (k1, b, avgdl were just compared with the truth)
+	tfNode, _ := childByName(ex, "tf")
+	if tfNode == nil {
+		return vlib.Failf("explain-missing-child", "term explanation without a tf child; %s", detail)
+	}
+	var exactErr *vlib.Failure
+	tfOf := func(freq int, dl uint32) *big.Float {
+		v, f := formulaValue(tfNode, map[string]float64{"freq": float64(freq), "dl": float64(dl)})
+		if f != nil {
+			exactErr = f
+			return bf(0)
+		}
+		return v
+	}
 	exact := func(boost, idf float64, freq int, dl uint32) *big.Float {
-		return bmul(bmul(bf(boost), bf(idf)), tfExact(float64(freq), c.K1, c.B, float64(dl), float64(c.SumTTF), float64(c.N)))
+		return bmul(bmul(bf(boost), bf(idf)), tfOf(freq, dl))
 	}
 	e := exact(c.Boost, idf, c.Freq, dl)
+	if exactErr != nil {
+		return exactErr
+	}
 	errUlp := math.Abs(f64(bsub(bf(s), e))) / u
 	if errUlp > st.maxErrUlp {
 		st.maxErrUlp = errUlp
@@ -426,7 +443,7 @@ func propDirect1(c DirectCase, st *directStats) *vlib.Failure {
 		}
 		// and the scores, everything else equal
 		wmax := c.Boost * idfLo
-		tf := tfExact(float64(c.Freq), c.K1, c.B, float64(dl), float64(c.SumTTF), float64(c.N))
+		tf := tfOf(c.Freq, dl)
 		eLo, eHi := bmul(bmul(bf(c.Boost), bf(idfHi)), tf), bmul(bmul(bf(c.Boost), bf(idfLo)), tf)
 		sLo, sHi := s2, s
 		if c.DF2 < c.DF {
